@@ -2806,6 +2806,13 @@ func (db *DB) Import(ctx context.Context, r io.Reader) error {
 	}
 	defer guard.Unlock()
 
+	// Read & validate the whole image into the next LTX file first so that an
+	// unusable input leaves the journal, the WAL and the database untouched.
+	pos, err := db.importToLTX(ctx, r)
+	if err != nil {
+		return err
+	}
+
 	// Invalidate journal, if one exists.
 	if err := db.invalidateJournal(JournalModePersist); err != nil {
 		return fmt.Errorf("invalidate journal: %w", err)
@@ -2816,11 +2823,6 @@ func (db *DB) Import(ctx context.Context, r io.Reader) error {
 		if err := db.TruncateWAL(ctx, 0); err != nil {
 			return fmt.Errorf("truncate wal: %w", err)
 		}
-	}
-
-	pos, err := db.importToLTX(ctx, r)
-	if err != nil {
-		return err
 	}
 
 	return db.ApplyLTXNoLock(db.LTXPath(pos.TXID, pos.TXID), true)
